@@ -4181,12 +4181,22 @@ def plain_column_projection(expr, parent, dependents, additional_columns=None):
     return type(parent)(result, parent.operand("columns"))
 
 
+def _eval_reads_index(expr):
+    # DataFrame.eval resolves "index", "ilevel_<n>" and the names of the index
+    # levels next to the column labels, there is no Index expression to look for
+    if not isinstance(expr, Eval):
+        return False
+    names = {"index", "ilevel_", *expr.frame._meta.index.names} - {None}
+    return any(str(name) in str(expr.operand("_expr")) for name in names)
+
+
 def is_filter_pushdown_available(expr, parent, dependents, allow_reduction=True):
     if parent.frame._name != expr._name:
         # expr is (part of) the predicate, parent doesn't filter expr
         return False
     if not expr._keeps_index and any(
-        isinstance(e, (Index, IdxMin)) for e in parent.predicate.walk()
+        isinstance(e, (Index, IdxMin)) or _eval_reads_index(e)
+        for e in parent.predicate.walk()
     ):
         # the predicate reads the new labels
         return False
